@@ -53,6 +53,8 @@ type sessionSpec struct {
 	CutBack  int64   `json:"cut_back,omitempty"` // end of the stream from the receiving side at this offset
 	// a hand-written sending peer (kind = "hostile")
 	Hostile *hostileSpec `json:"hostile,omitempty"`
+	// a raw daemon-protocol exchange (kind = "daemonreq")
+	DaemonReq *daemonReqSpec `json:"daemon_req,omitempty"`
 }
 
 type sessionResult struct {
@@ -156,6 +158,14 @@ func runSessionInProcess(sp sessionSpec) (res sessionResult) {
 	res.ID = sp.ID
 	if sp.Kind == "parse" {
 		res.Parse, res.Outcome = parseObservable(sp.Args), "ok"
+		return res
+	}
+	if sp.Kind == "daemonreq" {
+		if err := runDaemonReq(sp, &res); err != nil {
+			res.Err, res.Outcome = err.Error(), "error"
+		} else {
+			res.Outcome = "ok"
+		}
 		return res
 	}
 	if sp.Kind == "hostile" {
